@@ -233,13 +233,13 @@ Definition fresh_row (ds : list draw) (c : tsample) : Prop :=
   wf_tsample N k c /\ exists gs, length gs = N /\ PH c ~ ofl (map (gaussian32 0) gs) /\ forall g, In g gs -> In (DG (fst g) (snd g)) ds.
 Lemma tgsw_encrypt_zero_spec : forall rows ds C r, tgsw_encrypt_zero rows key N ds = Some (C, r) ->
   length C = rows /\ Forall (fresh_row ds) C.
-Proof. destruct Hkey as [Hkl Hkf]. induction rows as [|rows IH]; intros ds C r H; cbn [tgsw_encrypt_zero] in H.
+Proof using Npos Hkey. destruct Hkey as [Hkl Hkf]. induction rows as [|rows IH]; intros ds C r H; cbn [tgsw_encrypt_zero] in H.
   - inversion H; subst. split; [reflexivity|constructor].
   - destruct (tlwe_encrypt_zero key N ds) as [[c r1]|] eqn:E1; [|discriminate].
     destruct (tgsw_encrypt_zero rows key N r1) as [[C' r2]|] eqn:E2; [|discriminate]. inversion H; subst.
     destruct (IH _ _ _ E2) as [Hl HF].
     destruct (tlwe_encrypt_zero_spec N Npos key ds c r1 Hkf E1) as (gs & Hg & Hwf & Hds & Hph).
-    split; [cbn; lia|]. constructor.
+    split; [cbn [length]; now rewrite Hl|]. constructor.
     + split; [rewrite <- Hkl; exact Hwf|]. exists gs. split; [exact Hg|]. split; [exact Hph|].
       intros g Hin. rewrite Hds. apply in_or_app. left. apply in_map_iff. exists g. split; [reflexivity|exact Hin].
     + eapply Forall_impl; [|exact HF]. intros c' (Hw & gs' & Hg' & Hp' & Hin'). split; [exact Hw|]. exists gs'. split; [exact Hg'|]. split; [exact Hp'|].
